@@ -211,3 +211,10 @@ package machine
 // (callers keep seeing the body, so that its panic sites stay part of their own obligations)
 //@   inline
 //@   property C03
+
+// ---- C08 C03: the number a literal or a variable denotes is the decimal reading of its text (the grammar's NUMBER is
+// [0-9]+: a leading zero is a zero, not an octal prefix)
+//@ func machine.ParseMonetaryInt
+//@   ensures err == nil ==> ret0 != nil && val(ret0) == intOfString(s, 10)
+//@   inline
+//@   property C08 C03
